@@ -227,6 +227,10 @@ class Block:
 
 
 class Function:
+    def d_attr(self, name):
+        """memory-effect attribute the front end attached from a source-level __attribute__ (pure -> readonly, const -> readnone)"""
+        return self._attrs.get(name, False)
+
     def __init__(self, mod, d):
         self.mod = mod
         self.unit = mod["unit"]
@@ -239,6 +243,7 @@ class Function:
         self.file = _rel(d.get("file", self.unit))
         self.line = d.get("line", 0)
         self.di_types = d.get("di_types")  # [ret, p0, p1, ...] source-level types
+        self._attrs = {"readonly": d.get("readonly", False), "readnone": d.get("readnone", False)}
         self.blocks = []
         self.insts = {}
         self.dbgvars = {}  # inst id / ('arg', i) -> source variable name
@@ -481,6 +486,7 @@ class Program:
         self.config = facts["config"]
         self.modules = facts["modules"]
         self.funcs = {}
+        self.header_inlines = {}
         self.decls = {}
         self.globals = {}
         self.globals_by_unit = {}
@@ -517,6 +523,11 @@ class Program:
                 f = Function(m, fd)
                 f.is_extra = m.get("is_extra", False)
                 if f.name in self.funcs:
+                    g0 = self.funcs[f.name]
+                    if f.internal and g0.internal and (f.file, f.line) == (g0.file, g0.line) and f.file != _rel(f.unit):
+                        # `static inline` in a header: one definition, one copy per including unit; the first stands for all
+                        self.header_inlines.setdefault(f.name, [g0.unit]).append(f.unit)
+                        continue
                     raise AnalysisBroken("function %s defined in two units (%s, %s)" % (f.name, self.funcs[f.name].unit, f.unit))
                 self.funcs[f.name] = f
         self.externals = {n: d for n, d in self.decls.items() if n not in self.funcs}
